@@ -13,6 +13,8 @@ WT=$(mktemp -d /tmp/vseed.XXXXXX); rmdir "$WT"
 git -C /repo worktree add -q "$WT" HEAD || exit 2
 trap 'git -C /repo worktree remove --force "$WT" >/dev/null 2>&1; rm -rf "$WT"' EXIT
 demo=$(ls "$D"/*_test.go | head -1)
+# a patch written against an older HEAD that no longer applies is kept next to its rebased twin
+PATCHF="$D/patch.diff"; [ -f "$D/patch_against_current_head.diff" ] && PATCHF="$D/patch_against_current_head.diff"
 pkgdir=.
 [ -f "$D/pkgdir.txt" ] && pkgdir=$(cat "$D/pkgdir.txt")
 cp "$demo" "$WT/$pkgdir/"
@@ -22,12 +24,12 @@ suite() { (cd "$WT" && go test -vet=off -count=1 -skip 'TestSeedDemo$' . ./text 
 echo "seed: $D  property: $ID  repo HEAD: $(git -C /repo log --format=%h -1)"
 echo "== demo without patch:"; run_demo
 base=$(suite)
-if ! git -C "$WT" apply "$D/patch.diff"; then echo "PATCH DOES NOT APPLY"; exit 3; fi
+if ! git -C "$WT" apply "$PATCHF"; then echo "PATCH DOES NOT APPLY"; exit 3; fi
 echo "== suite baseline : $base"
 with=$(suite)
 echo "== suite with patch: $with"
 [ "$base" = "$with" ] && echo "SUITE-UNCHANGED: yes" || echo "SUITE-UNCHANGED: NO"
 echo "== demo with patch:"; run_demo
 echo "== check $ID quick against the patched tree:"
-scripts/mutant.sh "$D/patch.diff" "$ID" 2>&1 | tail -4 | cut -c1-300
+scripts/mutant.sh "$PATCHF" "$ID" 2>&1 | tail -4 | cut -c1-300
 } | tee "$D/verified.txt"
